@@ -28,6 +28,7 @@ def run(ctx):
     for stream, kind, n in streams(ctx):
         cases = [R.make_case(ctx.rng, kind) for _ in range(n)]
         R.run_cases(ctx, stream, cases, R.proj_C01, oracle)
+    R.run_history_cases(ctx, "object-history", [R.make_case(ctx.rng, ctx.rng.choice(["script", "perturbed", "tagged"])) for _ in range(240 if ctx.thorough else 40)], R.proj_C01, oracle)
 
 
 def search(ctx, broken):
